@@ -557,8 +557,9 @@ theorem vstep_other_ge (k : Clk) (t : Tid) (e : Ev) (u : Tid) (hu : u ≠ t) :
     · simp [h2, hu]
 
 /-- induction on traces by appending one event -/
-theorem snoc_induction {P : Trace → Prop} (h0 : P []) (hs : ∀ tr x, P tr → P (tr ++ [x])) : ∀ tr, P tr := by
-  have : ∀ tr : Trace, P tr.reverse := by
+theorem snoc_induction {α : Type} {P : List α → Prop} (h0 : P []) (hs : ∀ tr x, P tr → P (tr ++ [x])) :
+    ∀ tr, P tr := by
+  have : ∀ tr : List α, P tr.reverse := by
     intro tr
     induction tr with
     | nil => simpa using h0
